@@ -70,6 +70,13 @@ Proof.
   destruct s as [|h t]; [discriminate|]. cbn [is_ident]. intros H. apply andb_prop in H. destruct H as [H _].
   unfold nodot. cbn [app hd_sat]. now apply idh_nodot.
 Qed.
+Lemma idh_nolt b : (is_alpha b || is_underscore b) = true -> negb (Byte.eqb b x3c) = true.
+Proof. destruct b; vm_compute; intro H; try reflexivity; discriminate H. Qed.
+Lemma ident_nolt s k : is_ident s = true -> nolt (s ++ k) = true.
+Proof.
+  destruct s as [|h t]; [discriminate|]. cbn [is_ident]. intros H. apply andb_prop in H. destruct H as [H _].
+  unfold nolt. cbn [app hd_sat]. now apply idh_nolt.
+Qed.
 Lemma ident_noparen s k : is_ident s = true -> noparen (s ++ k) = true.
 Proof. intros H. apply stop_noparen, ident_stop, H. Qed.
 Lemma ident_noquote s k : is_ident s = true -> noquote (s ++ k) = true.
@@ -91,12 +98,6 @@ Proof.
   destruct H as [H1 H2].
   rewrite alt_err by (unfold p_single_quote, p_quote_parser; apply pbind_err, tag_hd_ne, H1).
   apply alt_last_err. unfold p_double_quote, p_quote_parser. apply pbind_err, tag_hd_ne, H2.
-Qed.
-
-Lemma bytes_eq_eq a : forall b, bytes_eq a b = true -> a = b.
-Proof.
-  induction a as [|x a IH]; intros [|y b] H; cbn [bytes_eq] in H; try discriminate; [reflexivity|].
-  apply andb_prop in H. destruct H as [H1 H2]. apply byte_dec_bl in H1. subst. f_equal. auto.
 Qed.
 
 Section Kit.
@@ -131,6 +132,7 @@ Proof.
   split; [now apply ident_nb|]. split; [now apply name_not_cpp|].
   split; [apply dot_err; now apply ident_nodot|].
   split; [apply noparen_noann; now apply ident_noparen|].
+  split; [now apply ident_nolt|].
   intros -> E. rewrite (He eq_refl) in E. discriminate.
 Qed.
 
